@@ -490,4 +490,130 @@ def partToks (special : Rune → Bool) (p : Part) : List (Rune × Bool) :=
 def patParts (pat : Str) : List Str := if isAbs pat then (splitOn cSlash pat).tail else splitOn cSlash pat
 def patStart (pat : Str) : Str := if isAbs pat then [cSlash] else []
 
+/-! ## §7 the executable specification: what bash does with the word on the tree
+
+  Written from bash's documented behaviour (and validated against bash 5.2 on every run, stream
+  `bashspec`), not from expand.go: the word is a sequence of characters that are quoted or not; it is
+  split at slashes; a component with an active pattern character is matched against the entries of
+  the directory named by the prefix so far (resolved by the kernel, not lexically); any other
+  component is taken literally; the path must exist in the end (lstat for a final literal component,
+  a directory for a trailing slash).  Slashes are reproduced as written.  Not covered (`outside`):
+  active `**` components under globstar, tilde prefixes, `${v}` values that are empty or contain
+  white space. -/
+
+structure PC where
+  c : Rune
+  q : Bool
+  deriving DecidableEq, Repr
+
+def unqChars : Str → List PC
+  | [] => []
+  | c :: rest =>
+    if c = cBS then
+      match rest with
+      | [] => [⟨cBS, false⟩]
+      | d :: rest' => ⟨d, true⟩ :: unqChars rest'
+    else ⟨c, false⟩ :: unqChars rest
+
+def segChars : Seg → Option (List PC)
+  | .unq raw => some (unqChars raw)
+  | .sq v => some (v.map (⟨·, true⟩))
+  | .dq raw => some ((unescDq raw).map (⟨·, true⟩))
+  | .par v => if v = [] ∨ v.any isIfs then none else some (v.map (⟨·, false⟩))
+  | .ext t => some (t.map (⟨·, false⟩))
+
+def splitPC : List PC → List (List PC)
+  | [] => [[]]
+  | x :: rest =>
+    if x.c = cSlash then [] :: splitPC rest
+    else match splitPC rest with
+      | h :: t => (x :: h) :: t
+      | [] => [[x]]
+
+/-- The component as pattern text: quoted characters escaped. -/
+def compPat (cs : List PC) : Str := cs.flatMap fun x => if x.q then [cBS, x.c] else [x.c]
+
+/-- The characters as they are printed when the word is kept. -/
+def pcText (cs : List PC) : Str := cs.map (·.c)
+
+def resolveNode (root : Node) (path : Str) : Except FsErr Node :=
+  if path.head? ≠ some cSlash then .error .noent else
+  match resolveAux root resolveFuel 0 [] (splitOn cSlash path) with
+  | .error e => .error e
+  | .ok rcur =>
+    match root.find rcur.reverse with
+    | some n => .ok n
+    | none => .error .noent
+
+def isDirPath (root : Node) (p : Str) : Bool :=
+  match resolveNode root p with
+  | .ok (.dir _) => true
+  | _ => false
+
+/-- lstat(p) succeeds. -/
+def lexists (root : Node) (p : Str) : Bool :=
+  let comps := splitOn cSlash p
+  match comps.getLast? with
+  | none => false
+  | some last =>
+    if last = [] ∨ last = cDotS ∨ last = cDotDotS then isOk (resolveNode root p)
+    else match resolveNode root (intercalateSlash comps.dropLast ++ [cSlash]) with
+      | .ok (.dir es) => (lookupNode es last).isSome
+      | _ => false
+
+def absP (pwd s : Str) : Str := if isAbs s then s else pwd ++ cSlash :: s
+
+def specMode (c : Cfg) : Mode :=
+  { shortest := false, filenames := true, entire := true, nocase := c.nocase, noglobstar := true,
+    dotglob := c.dotglob, ext := c.extglob }
+
+def compIsPattern (cfg : Cfg) (cs : List PC) : Bool :=
+  hasMeta (compPat cs) || (cfg.extglob && hasExtGroup (compPat cs))
+
+/-- One component applied to one prefix.  `first`: nothing has been written yet. -/
+def specStep (root : Node) (cfg : Cfg) (pwd : Str) (first last : Bool) (cs : List PC) (pre : Str) : List Str :=
+  let join := fun (n : Str) => if first then n else pre ++ cSlash :: n
+  if compIsPattern cfg cs then
+    let dir := if first then pwd else absP pwd (pre ++ [cSlash])
+    match readDir root dir with
+    | .error _ => []
+    | .ok ents =>
+      let names := (ents.map (·.1)).filter fun n => globMatch (specMode cfg) (compPat cs) n
+      let outs := names.map join
+      if last then outs else outs
+  else
+    let n := unescape (compPat cs)
+    let r := join n
+    if !last then [r]
+    else if n = [] then (if first then [r] else if isDirPath root (absP pwd (pre ++ [cSlash])) then [r] else [])
+    else if lexists root (absP pwd r) then [r] else []
+
+def specLoop (root : Node) (cfg : Cfg) (pwd : Str) : Bool → List (List PC) → List Str → List Str
+  | _, [], pres => pres
+  | first, cs :: rest, pres =>
+    specLoop root cfg pwd false rest (pres.flatMap (specStep root cfg pwd first rest.isEmpty cs))
+
+inductive SpecRes
+  | outside
+  | ok (fields : List Str)
+  deriving DecidableEq, Repr
+
+/-- bash on the fragment: the fields the word expands to. -/
+def specFields (root : Node) (cfg : Cfg) (pwd : Str) (segs : List Seg) : SpecRes :=
+  match segs with
+  | .unq (c :: _) :: _ => if c = cTilde then .outside else go
+  | _ => go
+where
+  go : SpecRes :=
+    match segs.mapM segChars with
+    | none => .outside
+    | some css =>
+      let chars := css.flatten
+      let comps := splitPC chars
+      if cfg.globstar ∧ comps.any (fun cs => compPat cs == [cStar, cStar]) then .outside
+      else if cfg.noglob ∨ !comps.any (compIsPattern cfg) then .ok [pcText chars]
+      else
+        let found := sortStrs (specLoop root cfg pwd true comps [[]])
+        if found.isEmpty then (if cfg.nullglob then .ok [] else .ok [pcText chars]) else .ok found
+
 end ShVerif.C19
